@@ -265,6 +265,23 @@ def _check_quilt(case, ctx, tmp):
         for d in case['members']:
             bounds.append(bounds[-1] + len(d[own_key]))
         nr, nc = ref.shape
+
+        def scattered(desc, own):
+            """with a long member on the Quilt axis, some own-axis keys become several ascending, unevenly spaced positions inside that
+            member (a selection no slice can express), as a list, an array or a Boolean mask over the whole axis."""
+            longs = [(bounds[i], bounds[i + 1]) for i in range(len(bounds) - 1) if bounds[i + 1] - bounds[i] >= 5]
+            if not own or not longs or rng.random() > 0.8:
+                return desc
+            lo, hi = rng.choice(longs)
+            k = rng.randint(min(4, hi - lo), min(6, hi - lo))
+            pos = sorted(rng.sample(range(lo, hi), k))
+            if rng.random() < 0.3:
+                others = [p for p in range(bounds[-1]) if not lo <= p < hi]
+                pos = sorted(pos + rng.sample(others, min(len(others), rng.randint(0, 2))))
+            form = rng.choice(['list', 'array', 'bools'])
+            ctx.tally('scattered_key', form)
+            return ('bools', [p in pos for p in range(bounds[-1])]) if form == 'bools' else (form, pos)
+
         for obs in case['obs']:
             ctx.tally('quilt_observation', obs)
             k2 = dict(klass, obs=obs)
@@ -284,6 +301,10 @@ def _check_quilt(case, ctx, tmp):
                     ck = ('null',)
                 if obs == 'iloc_col':
                     rk = ('null',)
+                if axis == 0:
+                    rk = scattered(rk, obs != 'iloc_col')
+                else:
+                    ck = scattered(ck, obs != 'iloc_row')
                 own_desc, opp_desc = (rk, ck) if axis == 0 else (ck, rk)
                 k2.update(_key_class(own_desc, bounds))
                 k2['opposite_key'] = opp_desc[0]
@@ -294,6 +315,10 @@ def _check_quilt(case, ctx, tmp):
             elif obs == 'loc':
                 rk = K.gen_positional(nr, rng, allow_repeat=False)
                 ck = K.gen_positional(nc, rng, allow_repeat=False)
+                if axis == 0:
+                    rk = scattered(rk, True)
+                else:
+                    ck = scattered(ck, True)
                 own_desc = rk if axis == 0 else ck
                 k2.update(_key_class(own_desc, bounds))
                 rres, cres = K.resolve_positional(nr, rk), K.resolve_positional(nc, ck)
